@@ -548,3 +548,46 @@ def c18_detector_wiring(tier, rng):
         viol.append({"obligation": "C18.detector_wiring.none", "inputs": None, "observed": "no construction found", "required": "some", "undecided": True})
     return {"obligations": obl, "discharged": dis, "violations": viol, "cases": obl, "exhaustive": True, "bound": "all StrandDetector(...) calls in the sources",
             "samples": [{"call": "StrandDetector(self.chr_record)"}]}
+
+
+# ---- the reference window of a region covers every read assigned in it (what check_sites_are_canonical requires of its caller) --------------------
+def _window_extract(fdef):
+    """process_alignments_in_region: the block that extends the reference window over the reads of the region (`if self.params.needs_reference
+    and assignment_storage: ...`), as a function of (self, gene_info, assignment_storage); drops the construction of gene_info and the two
+    calls that assign the reads"""
+    import ast, copy
+    blk = next((n for n in fdef.body if isinstance(n, ast.If) and "needs_reference" in ast.unparse(n.test)), None)
+    if blk is None:
+        raise front.Missing("window extension block not found in process_alignments_in_region")
+    args = ast.arguments(posonlyargs=[], args=[ast.arg(arg=a) for a in ("self", "gene_info", "assignment_storage")], kwonlyargs=[], kw_defaults=[], defaults=[])
+    return ast.fix_missing_locations(ast.FunctionDef(name="process_alignments_in_region", args=args, body=[copy.deepcopy(blk)], decorator_list=[],
+                                                     lineno=fdef.lineno, col_offset=0))
+
+
+record("WinParams", {"needs_reference": "bool"})
+record("WinCollector", {"params": "rec:WinParams", "chr_record": "str"})
+record("WinGeneInfo", {"all_read_region_start": "int", "all_read_region_end": "int", "reference_region": "str",
+                       "canonical_sites": "dict[tuple[tuple[int,int],str],bool]"})
+record("WinAssignment", {"exons": IVS})
+
+contract("src/gene_info.py:GeneInfo.set_reference_sequence", {"self": "rec:WinGeneInfo", "start": "int", "end": "int", "chr_record": "str"},
+         returns="none", props=["C18"], native=False,
+         modifies=["self.all_read_region_start", "self.all_read_region_end", "self.reference_region", "self.canonical_sites"],
+         requires=["end >= 1"],
+         # 1-based window [max(1, start), end]; the memo of canonical sites belongs to the old window and is dropped
+         ensures=["self.all_read_region_start == max(1, start)", "self.all_read_region_end == end", "len(self.canonical_sites) == 0"])
+
+contract("src/alignment_processor.py:AlignmentCollector.process_alignments_in_region#window",
+         {"self": "rec:WinCollector", "gene_info": "rec:WinGeneInfo", "assignment_storage": "list[rec:WinAssignment]"},
+         returns="none", props=["C18"], extract=_window_extract, native=False,
+         bind={"WinGeneInfo.set_reference_sequence": "src/gene_info.py:GeneInfo.set_reference_sequence"},
+         modifies=["gene_info.all_read_region_start", "gene_info.all_read_region_end", "gene_info.reference_region", "gene_info.canonical_sites"],
+         requires=["all(len(assignment_storage[i].exons) >= 1 and assignment_storage[i].exons[0][0] >= 1 and "
+                   "assignment_storage[i].exons[len(assignment_storage[i].exons) - 1][1] >= 1 for i in range(len(assignment_storage)))",
+                   "gene_info.all_read_region_start >= 1 and gene_info.all_read_region_end >= 1"],
+         # with a reference, every read assigned in the region lies inside the window whose sequence is loaded (first exon start to last
+         # exon end), whatever order the reads come in; the window never shrinks
+         ensures=["not self.params.needs_reference or all(gene_info.all_read_region_start <= assignment_storage[i].exons[0][0] and "
+                  "assignment_storage[i].exons[len(assignment_storage[i].exons) - 1][1] <= gene_info.all_read_region_end "
+                  "for i in range(len(assignment_storage)))",
+                  "gene_info.all_read_region_start <= old(gene_info.all_read_region_start) and gene_info.all_read_region_end >= old(gene_info.all_read_region_end)"])
